@@ -161,7 +161,60 @@ def gen_cases(tier, seed):
                                    surface_tension=round(10 ** rnd.uniform(0, 1.9), 3), saturation_pressure=101325.0, cross_sectional_area=0.162)
         cases.append(dict(method=method, geom=geom, branch=branch, men=men, tm=tm, km=km, p=p, v=v, limits=limits, lkind=lk, kind=kind, entry=entry,
                           step_at=step_at, ads=ads, props=props, carrier=carrier, T=T))
+    # numeric TYPE of the volumes handed to the raw entry points (own random stream: the cases above do not depend on it). The documented argument is
+    # "array"; a caller may hand over an integer array, a list / tuple of Python ints, a float32 array or a pandas Series. The stored values are made
+    # exactly representable in the type (integers: the curve is scaled to a top value of 20..5000 and rounded - rounding keeps it non-decreasing)
+    rnd2 = random.Random(seed * 7919 + 16)
+    for c in cases:
+        if c['entry'] == 'iso' and rnd2.random() < 0.35:
+            # stored representation of the isotherm's pressures: percent of the saturation pressure. The analysis works on the relative pressures the
+            # isotherm reports (stored * 100**-1): those are the case's pressures (a limit lying on a data point moves with it)
+            stored = [float(x * 100) for x in c['p']]
+            seen = [float(x * 100 ** -1) for x in stored]
+            if all(a < b for a, b in zip(seen, seen[1:])) and 0 < seen[0] and seen[-1] < 1:
+                mp = dict(zip(c['p'], seen))
+                if c['limits'] is not None:
+                    c['limits'] = tuple(mp.get(x, x) for x in c['limits'])
+                c['p'], c['p_stored'], c['pmode'] = seen, stored, 'relative%'
+        if c['entry'] != 'raw':
+            continue
+        c['vtype'] = rnd2.choice(VTYPES) if rnd2.random() < 0.7 else 'float64 array'
+        if c['vtype'] in INT_VTYPES:
+            top = max(c['v']) or 1.0
+            K = rnd2.uniform(20, 5000) / top
+            c['v'] = [float(round(x * K)) for x in c['v']]
+        elif c['vtype'] == 'float32 array':
+            c['v'] = [float(np.float32(x)) for x in c['v']]
     return cases
+
+
+INT_VTYPES = ['int64 array', 'int32 array', 'list of int', 'tuple of int', 'Series of int']
+# (float32 arrays are left out: numpy.diff of a float32 array is rounded to float32, so the unchanged recurrences differ from the float64 ones by ~1e-7 of the top
+# volume - the property does not state a precision for single-precision input, not judged)
+VTYPES = INT_VTYPES + ['list of float', 'Series of float']
+
+
+def typed_volumes(c):
+    """the volumes of a raw case in the container / numeric type the case names"""
+    import pandas
+    vt, v = c.get('vtype', 'float64 array'), c['v']
+    if vt == 'int64 array':
+        return np.array([int(x) for x in v], dtype=np.int64)
+    if vt == 'int32 array':
+        return np.array([int(x) for x in v], dtype=np.int32)
+    if vt == 'list of int':
+        return [int(x) for x in v]
+    if vt == 'tuple of int':
+        return tuple(int(x) for x in v)
+    if vt == 'Series of int':
+        return pandas.Series([int(x) for x in v])
+    if vt == 'list of float':
+        return [float(x) for x in v]
+    if vt == 'float32 array':
+        return np.array(v, dtype=np.float32)
+    if vt == 'Series of float':
+        return pandas.Series(v, dtype=float)
+    return np.array(v)
 
 
 def ads_props(c):
@@ -236,13 +289,13 @@ def models(c):
 def make_iso(c):
     import pygaps
     name = cl.adsorbate('c16_placeholder', **ADS)      # the constructor needs a registered name (GUIDE); replaced below
-    p, v = c['p'], c['v']
+    p, v = c.get('p_stored', c['p']), c['v']
     if c['branch'] == 'ads':
         pp, vv = list(p), list(v)
     else:   # adsorption branch below the desorption branch; the analysed (desorption) data are (p, v)
         pp = list(p) + list(p[::-1])
         vv = [x * 0.9 for x in v] + list(v[::-1])
-    iso = pygaps.PointIsotherm(pressure=pp, loading=vv, material='verif_c16', adsorbate=name, temperature=c['T'], pressure_mode='relative',
+    iso = pygaps.PointIsotherm(pressure=pp, loading=vv, material='verif_c16', adsorbate=name, temperature=c['T'], pressure_mode=c.get('pmode', 'relative'),
                                loading_basis='volume_liquid', loading_unit='cm3', material_basis='mass', material_unit='g')
     if c.get('carrier') == 'backend':
         iso.adsorbate = pygaps.Adsorbate.find('nitrogen')       # the shared, registered object with its CoolProp state
@@ -265,9 +318,22 @@ def run_impl(c):
         else:
             t_model, k_model = models(c)
             f = {'pygaps-DH': psd_meso.psd_pygapsdh, 'BJH': psd_meso.psd_bjh, 'DH': psd_meso.psd_dollimore_heal}[c['method']]
-            r = f(np.array(c['v']), np.array(c['p']), c['geom'], t_model, k_model)
+            r = f(typed_volumes(c), np.array(c['p']), c['geom'], t_model, k_model)
             out['win'] = (0, len(c['p']) - 1)
             out['cumul'] = []
+            if c.get('vtype', 'float64 array') != 'float64 array':
+                # the same numbers as a float64 array: the numeric type of the argument is not part of the recurrence
+                r64 = f(np.array(c['v'], dtype=float), np.array(c['p']), c['geom'], t_model, k_model)
+                td = []
+                for k in ('pore_widths', 'pore_areas', 'pore_volumes', 'pore_distribution'):
+                    a, b = np.asarray(r[k]), np.asarray(r64[k], dtype=float)
+                    sc = float(np.max(np.abs(b))) if len(b) else 0.0
+                    if a.shape != b.shape:
+                        td.append('%s: shape %r, float64 input gives %r' % (k, a.shape, b.shape))
+                    elif len(b) and not np.all(np.abs(a.astype(float) - b) <= 1e-12 * sc):
+                        i = int(np.argmax(np.abs(a.astype(float) - b)))
+                        td.append('%s[%d] = %r (dtype %s), the same volumes as a float64 array give %r' % (k, i, a[i].item() if hasattr(a[i], 'item') else a[i], a.dtype, float(b[i])))
+                out['typed_diff'] = td
         for k in ('pore_widths', 'pore_areas', 'pore_volumes', 'pore_distribution'):
             out[k] = [float(x) for x in r[k]]
     except Exception as ex:  # noqa
@@ -337,6 +403,8 @@ def judge(c, o, t, k, fail):
             fail('refusal', 'only %d points inside the limits %r but not refused' % (len(inside_closed), lim))
     if o['oc'] != 'Ok':
         return False
+    if o.get('typed_diff'):
+        fail('numeric-type', 'volumes given as %s: %s' % (c.get('vtype'), '; '.join(o['typed_diff'][:3])))
     a, b = o['win']
     sel = set(range(a, b + 1))
     if not set(inside_open) <= sel or not sel <= set(inside_closed):
@@ -471,7 +539,7 @@ def explore(rep, tier, seed):
                                            'implementation': {kk: (vv if not isinstance(vv, list) else vv[:4]) for kk, vv in o.items()},
                                            'model': {'outcome_code': code, 'arrays_agree': agree, 'window': (mn, mx)}})
         if t is not None and judge(c, o, t, k, fail):
-            nontrivial.add((c['method'], c['geom'], c['tm'], c['km'], c['branch'], c['entry'], c['lkind'], len(c['p'])))
+            nontrivial.add((c['method'], c['geom'], c['tm'], c['km'], c['branch'], c['entry'], c['lkind'], len(c['p']), c.get('vtype')))
         elif t is None and o['oc'] == 'Ok':
             fail('arguments', 'the analysis succeeded although its Kelvin/thickness model refuses the arguments')
     goals = []
@@ -494,8 +562,8 @@ def explore(rep, tier, seed):
                        '(increments 1e-12..1e-6 of the step), weak uptake in front of one large step, each optionally at an overall scale 1e-6..100; zero-thickness conservation is judged '
                        'per step to 1e-12 of the neighbouring volumes, the model correspondence to 1e-13 of the array scale for the zero model; a tenth of the cases use the shipped nitrogen '
                        '(thermodynamic backend) at five temperatures in the one process, judged with property values read in a fresh process; method x pore geometry x meniscus x '
-                       'thickness model (Halsey, Harkins/Jura, zero, a callable) x Kelvin / Kelvin-KJS x branch x limits (default, random, on data points, one-sided, narrow), '
-                       'isotherm and raw entry points; every case has its own adsorbate property set (two fixed, else random molar mass 2-150, density 0.3-3.2, surface tension '
+                       'thickness model (Halsey, Harkins/Jura, zero, a callable) x Kelvin / Kelvin-KJS x branch x limits (default, random, on data points, one-sided, narrow), isotherms stored with relative or relative% pressures, '
+                       'isotherm and raw entry points (the raw volumes as float64 / int64 / int32 arrays, lists and tuples of ints or floats, pandas Series - the result must be the float64 one); every case has its own adsorbate property set (two fixed, else random molar mass 2-150, density 0.3-3.2, surface tension '
                        '1-80) carried under ONE adsorbate name by a fresh object or by one shared object edited between the calls, all calls in one process at two temperatures; non-trivial = distinct (method, geometry, thickness, kelvin, branch, entry, limit kind, size) that returned a '
                        'distribution and passed every clause of the oracle')
     rep.cov['input_distribution'] = dict(sorted(hist.items()))
@@ -513,6 +581,13 @@ def explore(rep, tier, seed):
         c, o = cases[i], outs[i]
         rep.cov['samples'].append({'method': c['method'], 'geometry': c['geom'], 'thickness': c['tm'], 'n': len(c['p']), 'limits': c['limits'],
                                    'outcome': o['oc'], 'volumes': o.get('pore_volumes', [])[:3]})
+    rep.cov['raw_volume_numeric_types'] = {}
+    for c in cases:
+        if c['entry'] == 'raw':
+            kk = '%s / %s' % (c.get('vtype'), 'zero thickness' if c['tm'] == 'zero thickness' else 'non-zero thickness')
+            rep.cov['raw_volume_numeric_types'][kk] = rep.cov['raw_volume_numeric_types'].get(kk, 0) + 1
+    rep.cov['isotherm_pressure_modes'] = {'relative': sum(1 for c in cases if c['entry'] == 'iso' and 'pmode' not in c),
+                                          'relative%': sum(1 for c in cases if c.get('pmode') == 'relative%')}
     rep.cov['volume_shapes'] = {}
     for c in cases:
         rep.cov['volume_shapes'][c['kind']] = rep.cov['volume_shapes'].get(c['kind'], 0) + 1
